@@ -6,6 +6,13 @@ From Coq Require Import Sorted.
 From NG Require Import Common.Tactics Trie.Model Trie.Lemmas Trie.PutDelete Trie.Unique Trie.Batch Trie.History
   Trie.Range Trie.Collapse Trie.Merkle.
 
+(* ---------- byte keys are nibble paths (toNibbles), injectively ---------- *)
+
+Theorem C10_to_nibbles : forall bs, Forall (fun b => (b < 256)%N) bs ->
+  path_ok (to_nibbles bs) /\ from_nibbles (to_nibbles bs) = bs.
+Proof. exact to_nibbles_spec. Qed.
+Print Assumptions C10_to_nibbles.
+
 (* ---------- Put / Delete: the content is updated like a finite map; the normal form of doc.go is kept ---------- *)
 
 Theorem C10_put_content : forall t p v, NF t -> path_ok p ->
